@@ -215,6 +215,40 @@ def run(ctx, build):
                 distinct.add((lay.key(), tuple(sorted(dims)), name, to_file))
                 if len(out.samples) < 4 and to_file:
                     out.samples.append(dict(desc, raised=repr(exc)[:120] if exc else None))
+    # ---- designed (exact oracle only): reference values stored as float64 that float32 cannot tell apart (time stamps, large offsets):
+    # a rebuilt side must carry exactly the original values
+    hist['float64_reference_values'] = 0
+    for tf_name, tf in (('1e6 + 0.1 v', lambda a: 1000000.0 + a * 0.1), ('1.7e9 + v', lambda a: 1700000000.0 + a)):
+        lay = gen.Layout([3, 2], [0, 1], [2, 2], [1, 0], dtype='f8', vkind=0)
+        if os.path.exists(path):
+            os.remove(path)
+        with h5py.File(path, 'w') as f:
+            main = gen.write_layout(f, lay, val_dtype=np.float64, val_transform=tf)
+            with common.quiet():
+                u = usid.USIDataset(main)
+            for dims in ([lay.pos_labels[0]], [lay.spec_labels[1]], [lay.pos_labels[1], lay.spec_labels[0]]):
+                desc = {'layout': lay.describe(), 'dims': dims, 'function': 'sum', 'to_hdf5': True, 'reference_values': 'float64: ' + tf_name}
+                hist['float64_reference_values'] += 1
+                try:
+                    with common.quiet():
+                        red, new = u.reduce(dims, ufunc=da.sum, to_hdf5=True)
+                except Exception:
+                    continue                                    # raising instead of writing is allowed
+                nm = f[new.name]
+                for axis, names, unit, anc in ((0, lay.pos_labels, lay.pos_unit, 'Position'), (1, lay.spec_labels, lay.spec_unit, 'Spectroscopic')):
+                    if not any(l in dims for l in names):
+                        continue
+                    hi, hv = f[nm.attrs[anc + '_Indices']], f[nm.attrs[anc + '_Values']]
+                    nl = [x.decode() if isinstance(x, bytes) else str(x) for x in np.atleast_1d(hi.attrs['labels'])]
+                    ii, vv = (hi[()], hv[()]) if axis == 0 else (hi[()].T, hv[()].T)
+                    for j, lab in enumerate(nl):
+                        if lab not in names:
+                            continue
+                        orig = tf(np.asarray(unit(names.index(lab)), dtype=np.float64))
+                        if [float(x) for x in vv[:, j]] != [float(orig[int(k0)]) for k0 in ii[:, j]]:
+                            violate('float64_reference_values', 'reduced_side_values_not_the_original_unit_values',
+                                    '%s: %s instead of %s | %s' % (lab, [float(x) for x in vv[:, j]][:4], [float(orig[int(k0)]) for k0 in ii[:, j]][:4], desc), desc)
+                del main.parent[nm.parent.name.split('/')[-1]]
     bad, err = common.coq_eval_cases(ctx, HEADER, cases, 'check12', case_type='case12', per_file=40)
     bad2, err2 = common.coq_eval_cases(ctx, HEADER, vcases, 'check12v', case_type='case12v', per_file=150, tag='vals')
     out.corr_error = err or err2
